@@ -21,7 +21,6 @@ RULE = ("scenario = legal prefix history (<=6 frames, receiver idle / inside a t
         "in a non-idle state; distinct = (api, state, first byte, length class, close-code class / reason class, "
         "history word)")
 ASSUMPTIONS = ["close codes 1012-1014 are outside the property (registered after RFC 6455)",
-               "fragmented / oversized control frames are demanded through the message-level calls only",
                "non-minimal length encodings and masked server frames are not demanded either way"]
 
 PREFIX = {"idle": [], "in_text": [{"fin": 0, "op": 1, "hex": "6162"}], "in_binary": [{"fin": 0, "op": 2, "hex": "0001"}]}
